@@ -27,6 +27,7 @@ from .. import corpus, pegcheck, gram, modelcmp
 from ..pegcheck import Z3, class_text, real_load
 
 PROP = 'C21'
+KNOWN_SPELLING = 'C21-ignore-case-keyword-value-spelling'
 KW = re.compile(r'[^\d\W]\w*')
 
 
@@ -82,6 +83,38 @@ def glue_term(inp, lits, ignore_case):
     return Or(*alts)
 
 
+def occurs_term(inp, lits, ignore_case):
+    """some identifier-like literal of the grammar occurs in the input (at its very start)"""
+    alts = []
+    for s in lits:
+        if not s or not KW.fullmatch(s) or len(s) > inp.n:
+            continue
+        cs = []
+        for i, ch in enumerate(s):
+            k = CHR2CODE.get(ch)
+            if k is None:
+                cs = [False]
+                break
+            cs.append(inp.inset(i, FOLDSET[k] if ignore_case else frozenset([k]), record=False))
+        alts.append(And(*cs))
+    return Or(*alts)
+
+
+def only_case_differs(cfg, m1, m2):
+    """root cause of the known finding: under ignore_case the two models differ only in the letter case of
+    string values (keyword regex match vs string match)"""
+    if not cfg.get('ignore_case'):
+        return False
+
+    def low(x):
+        if isinstance(x, dict):
+            return {k: low(v) for k, v in x.items()}
+        if isinstance(x, list):
+            return [low(v) for v in x]
+        return x.lower() if isinstance(x, str) else x
+    return modelcmp.same(low(modelcmp.canon_real(m1)), low(modelcmp.canon_real(m2)))
+
+
 def compare_real(g, text, cfg):
     mk = pegcheck.build_mm(g, autokwd=True, **cfg)
     mp = pegcheck.build_mm(g, autokwd=False, **cfg)
@@ -92,12 +125,13 @@ def compare_real(g, text, cfg):
 
 def obligation(item):
     gi, n, timeout_ms = item[:3]
+    known_ids = item[4] if len(item) > 4 else ()
     g = corpus_list()[gi]
     cfg = {k: v for k, v in g['cfg'].items() if k != 'autokwd'}
     if len(item) > 3 and item[3]:
         cfg['ignore_case'] = True
     res = {'grammar': g['name'], 'n': n, 'queries': {}, 'solver_s': 0.0, 'violations': [], 'mismatch': [],
-           'validated': 0, 'twin': None, 'obligations': 0, 'discharged': 0, 'unknown': 0}
+           'validated': 0, 'twin': None, 'obligations': 0, 'discharged': 0, 'unknown': 0, 'known': {}}
     try:
         mk = pegcheck.build_mm(g, autokwd=True, **cfg)
         mp = pegcheck.build_mm(g, autokwd=False, **cfg)
@@ -173,6 +207,11 @@ def obligation(item):
             bad = 'accepted with autokwd, rejected without'
         elif k1 == 'ok' and k2 == 'ok' and not modelcmp.same(modelcmp.canon_real(m1), modelcmp.canon_real(m2)):
             bad = 'models differ: %s' % modelcmp.first_diff(modelcmp.canon_real(m1), modelcmp.canon_real(m2))
+            if KNOWN_SPELLING in known_ids and only_case_differs(cfg, m1, m2):
+                res['known'].setdefault(KNOWN_SPELLING, '%s on %r (grammar %s)' % (bad, text, g['name']))
+                bad = None
+                z.add(inp.block_class(text))
+                continue
         if bad:
             res['violations'].append({'grammar': g['name'], 'kind': 'input', 'text': text, 'detail': bad, 'cfg': cfg})
             break
@@ -190,10 +229,23 @@ def obligation(item):
         for k in z.queries:
             z.queries[k] += z2.queries[k]
         z.secs += z2.secs
+        # ... and some that start with a keyword-like literal
+        more, _, z3_ = enumerate_classes(inp, And(ak, Not(glue), ap, occurs_term(inp, lits, ic)), 4, timeout_ms)
+        for k in z.queries:
+            z.queries[k] += z3_.queries[k]
+        z.secs += z3_.secs
+        texts = list(dict.fromkeys(texts + more))
+        if cfg.get('ignore_case'):
+            # the witnesses' letter case is the solver's choice: add the upper-case spelling of each
+            texts = [v for t in texts for v in dict.fromkeys([t, t.upper()])]
         for text in texts:
             k1, m1, k2, m2 = compare_real(g, text, cfg)
             res['validated'] += 2
             if k1 == 'ok' and k2 == 'ok' and not modelcmp.same(modelcmp.canon_real(m1), modelcmp.canon_real(m2)):
+                if KNOWN_SPELLING in known_ids and only_case_differs(cfg, m1, m2):
+                    res['known'].setdefault(KNOWN_SPELLING, 'models differ: %s on %r (grammar %s)' % (
+                        modelcmp.first_diff(modelcmp.canon_real(m1), modelcmp.canon_real(m2)), text, g['name']))
+                    continue
                 res['violations'].append({'grammar': g['name'], 'kind': 'input', 'text': text, 'cfg': cfg,
                                           'detail': 'models differ: %s' % modelcmp.first_diff(
                                               modelcmp.canon_real(m1), modelcmp.canon_real(m2))})
@@ -224,9 +276,10 @@ def main():
     N = 5 if quick else 8
     timeout_ms = 60000 if quick else 300000
     gs = corpus_list()
-    items = [(gi, n, timeout_ms) for gi in range(len(gs)) for n in range(0, N + 1)]
+    kn = sorted(chk.known_ids)
+    items = [(gi, n, timeout_ms, False, kn) for gi in range(len(gs)) for n in range(0, N + 1)]
     # the same with ignore_case switched on (grammars that do not set it themselves), one length
-    items += [(gi, N - 1, timeout_ms, True) for gi in range(len(gs)) if not gs[gi]['cfg'].get('ignore_case')]
+    items += [(gi, N - 1, timeout_ms, True, kn) for gi in range(len(gs)) if not gs[gi]['cfg'].get('ignore_case')]
     items.sort(key=lambda it: -it[1])
     results = pmap(obligation, items)
     chk.cov['functions_encoded'] = src_hash(L.TextXVisitor.visit_str_match, L.TextXVisitor.__init__)
@@ -251,6 +304,9 @@ def main():
         if r['twin'] == 'sat':
             nontrivial += 1
         chk.cov['model_mismatches'] += len(r['mismatch'])
+        for fid, what in r.get('known', {}).items():
+            chk.known_hit(fid, 'under ignore_case the value of an assigned keyword literal is the input spelling with '
+                               'autokwd and the grammar spelling without — e.g. %s' % what)
         for v in r['violations']:
             key = (v['grammar'], v['kind'], v.get('literal'))
             if key in seen:
